@@ -15,6 +15,10 @@
    overwrite it and re-reads Errors()). *)
 From Tab Require Export Base.Bytes.
 
+(* An error value is opaque to the library: it is never unwrapped, compared,
+   sorted or otherwise looked into, so its identity is all the model keeps
+   (the harness raises plain, joined, wrapping, cause-less and non-comparable
+   error values alike, and reads the lists back after %#v / GoString dumps). *)
 Definition errid := N.
 Definition err := option errid.
 
